@@ -39,7 +39,7 @@ Print Assumptions C03_getPayloadRef.
 (* read-only accessors (point read, position lookup, read with a search-start shortcut)
    never change the state *)
 Theorem C03_reads_pure : forall s o,
-  match o with OGet _ | OGetPos _ _ _ | OGetSP _ _ _ => True | _ => False end ->
+  match o with OGet _ | OGetPos _ _ _ | OGetSP _ _ _ | OGetD _ _ => True | _ => False end ->
   fst (step s o) = s.
 Proof. exact reads_pure. Qed.
 Print Assumptions C03_reads_pure.
